@@ -23,6 +23,7 @@
 
 #include <dlfcn.h>
 #include <fcntl.h>
+#include <sys/resource.h>
 #include <sys/wait.h>
 #include <unistd.h>
 #include <fstream>
@@ -186,6 +187,8 @@ namespace {
     const pid_t pid = ::fork();
     if (pid == 0) {
       for (int sig : {SIGSEGV, SIGBUS, SIGFPE, SIGILL, SIGABRT}) std::signal(sig, SIG_DFL);
+      struct rlimit nocore = {0, 0};
+      ::setrlimit(RLIMIT_CORE, &nocore);
       // silence glibc's "double free or corruption" message
       const int fd = ::open("/dev/null", 1);
       if (fd >= 0) {
@@ -489,7 +492,7 @@ namespace {
   }
 }  // namespace
 
-VERIF_SUB_W(diff_order, 0.02) {
+VERIF_SUB_W(diff_order, 0.002) {
   const auto d = drawDiff(c, true);
   const std::string text = "diff(" + d.ftext + "," + (d.k == 0 ? "x" : "y") + ")";
   c.nontrivial(true);
@@ -506,7 +509,7 @@ VERIF_SUB_W(diff_order, 0.02) {
   }
 }
 
-VERIF_SUB_W(diff_copy, 0.02) {
+VERIF_SUB_W(diff_copy, 0.0015) {
   const auto d = drawDiff(c, false);
   const std::string text = "diff(" + d.ftext + "," + (d.k == 0 ? "x" : "y") + ")";
   c.nontrivial(true);
@@ -525,7 +528,7 @@ VERIF_SUB_W(diff_copy, 0.02) {
 }
 
 // ------- known finding: f(a, f(b,c)) with f an external function
-VERIF_SUB_W(deps_reentrant, 0.02) {
+VERIF_SUB_W(deps_reentrant, 0.002) {
   using namespace tfel::math::parser;
   auto manager = std::make_shared<ExternalFunctionManager>();
   east::GenOptions ob;
@@ -590,7 +593,7 @@ VERIF_SUB_W(deps_reentrant, 0.02) {
 }
 
 // ------- known finding: a ** p, p an external parameter holding an integer
-VERIF_SUB_W(deps_intexp, 0.02) {
+VERIF_SUB_W(deps_intexp, 0.002) {
   using namespace tfel::math::parser;
   auto manager = std::make_shared<ExternalFunctionManager>();
   const int n = static_cast<int>(c.integer(-16, 16, "n"));
@@ -667,18 +670,39 @@ namespace {
       src = base + ".cxx";
       so = base + ".so";
       log = base + ".log";
+      // the prelude (TFEL/Math/power.hxx is expensive) is precompiled once per process
+      static std::string prelude;
+      const std::string flags = "g++ -std=c++20 -O0 -w -fPIC -I'" + envOr("VERIF_REPO", "/repo") + "/include' -I'" +
+                                envOr("VERIF_BUILD", "/verif/build/hooks") + "/include' ";
+      if (prelude.empty()) {
+        prelude = workDir() + "/cxx_prelude_" + std::to_string(::getpid()) + ".hxx";
+        {
+          std::ofstream f(prelude);
+          f << "#include <cmath>\n#include <algorithm>\n#include \"TFEL/Math/power.hxx\"\n"
+               "#include \"TFEL/Math/General/IEEE754.hxx\"\nusing namespace std;\n";
+        }
+        const auto pch = flags + "-x c++-header '" + prelude + "' -o '" + prelude + ".gch' > /dev/null 2>&1";
+        if (::system(pch.c_str()) != 0) ::unlink((prelude + ".gch").c_str());  // falls back to the plain header
+        static struct Cleaner {
+          ~Cleaner() {
+            ::unlink(prelude.c_str());
+            ::unlink((prelude + ".gch").c_str());
+          }
+        } cleaner;
+      }
       {
         std::ofstream f(src);
-        f << "#include <cmath>\n#include <algorithm>\n#include \"TFEL/Math/power.hxx\"\n"
-             "#include \"TFEL/Math/General/IEEE754.hxx\"\nusing namespace std;\n";
+        f << "#include \"" << prelude << "\"\n";
         for (std::size_t k = 0; k != bodies.size(); ++k) {
           f << "extern \"C\" double f" << k << "(const double* const verif_args){\n";
           for (int i = 0; i != arity[k]; ++i) f << "  [[maybe_unused]] const double " << argnames[k][i] << " = verif_args[" << i << "];\n";
           f << "  return " << bodies[k] << ";\n}\n";
         }
       }
-      const auto cmd = "g++ -std=c++20 -O0 -w -fPIC -shared -I'" + envOr("VERIF_REPO", "/repo") + "/include' -I'" +
-                       envOr("VERIF_BUILD", "/verif/build/hooks") + "/include' '" + src + "' -o '" + so + "' > '" + log + "' 2>&1";
+      // compile, then a direct `ld -shared` (the g++ link driver costs more than the compilation);
+      // libm / libstdc++ symbols are resolved from the harness process at dlopen
+      const auto cmd = flags + "-c '" + src + "' -o '" + so + ".o' > '" + log + "' 2>&1 && ld -shared '" + so + ".o' -o '" + so + "' >> '" + log +
+                       "' 2>&1";
       const int rc = ::system(cmd.c_str());
       if (rc != 0) {
         std::ifstream l(log);
@@ -707,6 +731,7 @@ namespace {
       handle = nullptr;
       ::unlink(src.c_str());
       ::unlink(so.c_str());
+      ::unlink((so + ".o").c_str());
       ::unlink(log.c_str());
     }
     ~CxxUnit() { cleanup(); }
@@ -805,10 +830,10 @@ namespace {
 
 }  // namespace
 
-VERIF_SUB_W(cxx, 0.01) { cxxBatch(c, 8, false, false); }
+VERIF_SUB_W(cxx, 0.00075) { cxxBatch(c, 10, false, false); }
 
 // ---------------------------------------------- known finding: `a + -b`
-VERIF_SUB_W(plus_neg, 0.02) {
+VERIF_SUB_W(plus_neg, 0.0015) {
   // a + -b : the reducer accepts a unary minus after a binary + (TGroup::reduce)
   east::GenOptions o;
   o.nvars = 2;
@@ -853,7 +878,7 @@ VERIF_SUB_W(plus_neg, 0.02) {
 }
 
 // ------------------------- known finding: comparison starting with `(`
-VERIF_SUB_W(cond_paren, 0.02) {
+VERIF_SUB_W(cond_paren, 0.002) {
   east::GenOptions o;
   o.nvars = 2;
   o.csts = &constants();
@@ -904,7 +929,7 @@ VERIF_SUB_W(cond_paren, 0.02) {
 }
 
 // ------- known finding: Cste:: in the first branch of a conditional
-VERIF_SUB_W(cond_cste, 0.02) {
+VERIF_SUB_W(cond_cste, 0.002) {
   east::GenOptions o;
   o.nvars = 2;
   o.csts = &constants();
@@ -945,7 +970,7 @@ VERIF_SUB_W(cond_cste, 0.02) {
 }
 
 // ------- known finding: nested conditional with parentheses before the ':'
-VERIF_SUB_W(cond_nested, 0.02) {
+VERIF_SUB_W(cond_nested, 0.002) {
   east::GenOptions o;
   o.nvars = 2;
   o.csts = &constants();
@@ -997,7 +1022,7 @@ VERIF_SUB_W(cond_nested, 0.02) {
 }
 
 // ----------------------- known finding: integer literals in getCxxFormula
-VERIF_SUB_W(cxx_intlit, 0.001) {
+VERIF_SUB_W(cxx_intlit, 0.00015) {
   cxxBatch(c, 1, true, false, [&c](east::Generator& g, east::NP r) {
     auto intlit = [&g](const int v) {
       auto n = g.mk(east::K::Num);
@@ -1026,7 +1051,7 @@ VERIF_SUB_W(cxx_intlit, 0.001) {
   });
 }
 // ----------------------- known finding: ln / H are not C++ functions
-VERIF_SUB_W(cxx_names, 0.001) {
+VERIF_SUB_W(cxx_names, 0.00015) {
   cxxBatch(c, 1, false, true, [&c](east::Generator& g, east::NP r) {
     auto f = g.mk(east::K::Fun1);
     f->id = c.boolean("lnH") ? 6 : 27;
